@@ -138,7 +138,20 @@
      Operators: DoEv (dispatch of a call given as a record; shared with the trace specification),
      NestRun / WinStep (nested calls), OpWriteToRe, OpReadFromRe.  The exhaustive model executes the
      nested scripts of the constant Nests inside the collaborator (actions WriteToRe, ReadFromRe;
-     ReadFromRe only where the outcome does not depend on off).                                   *)
+     ReadFromRe only where the outcome does not depend on off).
+
+   RECYCLING  (the encoder from one record to the next)
+     The value the property speaks about is "the value encoder handed to user marshallers": the library
+     keeps its encoders in a pool, so the object a marshaller of record k+1 is handed is, as a rule, the
+     very object a marshaller of record k has used - read from, unread, grown, truncated.  The property's
+     histories start "from an empty or pre-filled buffer": whatever happened to the object during earlier
+     records, the encoder handed out for a new record is a buffer PRE-FILLED with what the library has
+     written of that record so far (b), i.e. the state a constructor produces: New(b) - contents b, last
+     read invalid, nothing in front of the read point.  OpRecycle(s, b) states that (it does not depend
+     on s), action Recycle(k) of the exhaustive model takes it from every state (the new record's prefix
+     ranges over Payloads[k], k \in Recs), invariant RecycleLaw.  For the caller it is a modification
+     like any other: the windows of its aliases end, its owned copies stay intact (the library writes
+     the next record into the same storage).  bytes.Buffer has no pool; its Recycle is NewBuffer(b).   *)
 EXTENDS Integers, Sequences, FiniteSets, TLC
 
 CONSTANTS
@@ -155,7 +168,8 @@ CONSTANTS
     PokeVals,     \* exhaustive model: byte values the caller stores through a kept slice
     Nests,        \* exhaustive model: sequence of scripts (sequences of call records) a collaborator runs on the buffer from inside Read / Write
     RePay,        \* exhaustive model: indexes into Payloads a re-entering reader delivers
-    ReFins        \* exhaustive model: how re-entering collaborators answer (subset of {"short", "err"}; "ok" / "eof" always)
+    ReFins,       \* exhaustive model: how re-entering collaborators answer (subset of {"short", "err"}; "ok" / "eof" always)
+    Recs          \* exhaustive model: indexes into Payloads - what the library has written of the NEXT record when the recycled encoder is handed out
 
 VARIABLES st, held
 
@@ -315,6 +329,10 @@ OpWriteTo(s, wn, werr) ==
             ELSE IF wn # Len(s.data) THEN R(s1, wn, 0, <<>>, ErrShortWrite, NoPanic)
             ELSE R(Fresh, wn, 0, <<>>, Nil, NoPanic)
 
+\* the encoder goes back to the pool and is handed out for the next record, of which the library
+\* has written b so far: a buffer pre-filled with b, whatever the previous records did to it
+OpRecycle(s, b) == Ok(New(b))
+
 OpLen(s) == R(s, Len(s.data), 0, <<>>, Nil, NoPanic)
 OpContents(s) == R(s, 0, 0, s.data, Nil, NoPanic)                \* Bytes() and String()
 OpNilString(s) == R(s, 0, 0, <<60, 110, 105, 108, 62>>, Nil, NoPanic)   \* String() on a nil pointer: "<nil>"
@@ -340,6 +358,7 @@ DoEv(s, e) ==
       [] e.op = "Grow" -> OpGrow(s, e.n, e.avail)
       [] e.op = "Len" -> OpLen(s)
       [] e.op \in {"Bytes", "String"} -> OpContents(s)
+      [] e.op = "Recycle" -> OpRecycle(s, e.b)
 
 NestedOps == {"Write", "WriteString", "WriteByte", "WriteRune", "Read", "Next", "ReadByte", "ReadRune", "UnreadByte",
               "UnreadRune", "ReadBytes", "ReadString", "Truncate", "Reset", "Grow", "Len", "Bytes", "String"}
@@ -538,6 +557,9 @@ ReadFromRe(k, fin, j, order) ==
     IN /\ ~a.und /\ ~b.und /\ a.o = b.o                       \* defined, and not a matter of where the storage begins
        /\ Len(a.o.st.data) + Len(a.o.st.prev) <= MaxLen
        /\ st' = a.o.st /\ held' = HC("ReadFrom", a.o, <<>>)
+\* the record ends; the encoder is handed out again for a record whose prefix is Payloads[k]
+Recycle(k) == Len(Payloads[k]) <= MaxLen /\ st' = OpRecycle(st, Payloads[k]).st
+              /\ held' = HC("Recycle", OpRecycle(st, Payloads[k]), <<>>)
 Len_ == st' = OpLen(st).st /\ held' = HC("Len", OpLen(st), <<>>)
 Bytes_ == st' = OpContents(st).st /\ held' = HC("Bytes", OpContents(st), <<>>)
 String_ == st' = OpContents(st).st /\ held' = HC("String", OpContents(st), <<>>)
@@ -567,6 +589,7 @@ Next ==
     \/ \E j \in 1..Len(Nests) : WriteToRe(j, 0, "ok")
     \/ \E j \in 1..Len(Nests), m \in 0..1, fin \in ReFins : WriteToRe(j, m, fin)
     \/ \E k \in RePay, fin \in (ReFins \cap {"err"}) \cup {"eof"}, j \in 1..Len(Nests), order \in {"pre", "post"} : ReadFromRe(k, fin, j, order)
+    \/ \E k \in Recs : Recycle(k)
     \/ Len_ \/ Bytes_ \/ String_
     \/ \E k \in 1..Hold, at \in {"first", "last"}, v \in PokeVals : Poke(k, at, v)
 
@@ -683,6 +706,18 @@ ReLaws ==
          /\ OpWriteToRe(st, ObsNest, m, we).o = OpWriteTo(st, m, we)
     /\ \A j \in 1..Len(Nests) : LET o == OpWriteToRe(st, Nests[j], Len(st.data), Nil)
                                 IN ~o.und /\ o.o.st = Fresh /\ o.o.n = Len(st.data) /\ o.o.err = Nil
+
+\* recycling: the encoder of the next record is the buffer a constructor makes of the record's prefix -
+\* nothing of the current state shows (Reset followed by Write of the prefix gives the same state; both
+\* Unread* fail; the contents are the prefix); for the caller it ends the alias windows and nothing else
+RecycleLaw == \A k \in 1..Len(Payloads) :
+    LET p == Payloads[k]
+        o == OpRecycle(st, p)
+    IN /\ o.st = New(p) /\ o.pan = NoPanic /\ o.err = Nil
+       /\ o.st = OpWrite(OpReset(st).st, p).st
+       /\ OpUnreadByte(o.st).err = ErrUnreadByte /\ OpUnreadRune(o.st).err = ErrUnreadRune
+       /\ OpContents(o.st).b = p /\ OpLen(o.st).n = Len(p)
+       /\ HCall(held, "Recycle", o, <<>>, FALSE, Hold) = SelectSeq(held, IsOwned)
 
 \* shape of the caller's side
 HeldOK == /\ Len(held) <= Hold
